@@ -25,7 +25,7 @@ RULE = ('cases: (a) exhaustive: n in 2..N systems x priority pattern {all distin
         'times. Non-trivial: the system set really changed during a step; distinct by (priorities, actor positions, actions).')
 ASSUMPTIONS = ['whether a system registered mid-timestep first runs in that timestep or the next is left open',
                'the oracle is computed from the script: a system removed before its turn does not perform its own scripted action']
-FLOORS = {'quick': {'action_steps': 2500, 'act_cleanup': 60, 'act_remove_earlier': 90, 'act_remove_later': 90, 'act_add_higher': 120,
+FLOORS = {'quick': {'action_steps': 2400, 'act_cleanup': 60, 'act_remove_earlier': 90, 'act_remove_later': 90, 'act_add_higher': 120,
                     'act_add_equal': 60, 'act_add_lower': 120, 'act_replace_earlier': 200, 'act_replace_later': 200, 'quiet_steps': 4000, 'two_actor_steps': 1000,
                     'reach:Core.SystemManager.execute_systems': 5000, 'reach:Core.System.clean_up': 60},
           'thorough': {'action_steps': 100000, 'two_actor_steps': 80000}}
